@@ -381,15 +381,13 @@ def _impl_kind(r) -> str:
 
 KNOWN = [
     {
-        "key": "recursion-limit",
-        "property": "C11",
-        "what": "key=recursion-limit nesting deeper than Python's recursion limit allows (under the default limit of 1000: "
-                "about 330 parentheses, 990 prefix operators, a chain of 500 operands of ~ or |, or 600 postfix operators "
-                "with the default optimizer) raises RecursionError from Parser.from_grammar instead of a PestGrammarError; "
-                "the scanner, the grammar parser and the optimizer all recurse on the depth of the expression",
+        "key": "deep-nesting-rejected",
+        "property": "C10",
+        "what": "key=deep-nesting-rejected a syntactically valid grammar whose expressions nest more deeply than Python's recursion "
+                "limit allows (under the default limit of 1000: about 330 parentheses, 990 prefix operators, a chain of 500 "
+                "operands of ~ or |) is rejected with PestGrammarSyntaxError \"expression nested too deeply\" (a RecursionError "
+                "before the repair f91a801); the scanner, the grammar parser and the optimizer recurse on the depth of the expression",
         "witness": "a = { " + "(" * 1200 + '"x"' + ")" * 1200 + " }",
-        # (text, failure dict) -> bool
-        "match": lambda text, bad: bad["class"] == "exception:RecursionError" and nest_depth(text) >= 150,
     },
     {
         "key": "huge-repetition-bound",
@@ -911,9 +909,10 @@ def judge_c10(text: str, answer: str, answer_balanced):
     valid = answer.startswith("ok ")
     r = im.load(text, False)
     if r[0] == "exc":
-        if r[1] == "RecursionError" and nest_depth(text) >= 150:
-            return "known:recursion-limit", None
         return "violation:exception", {"expected": "accepted" if valid else "PestGrammarError", "observed": f"{r[1]}: {r[2]}"}
+    if r[0] == "err" and "nested too deeply" in str(r[1].args[0] if r[1].args else "") and nest_depth(text) >= 150:
+        # the recursion limit stands in for a result the front end could not compute: nothing to compare
+        return ("known:deep-nesting-rejected", None) if valid else ("agree", None)
     if not valid:
         if r[0] == "ok":
             return "violation:accepts-invalid", {"expected": "rejected (pest's meta-grammar does not derive the text)", "observed": "accepted"}
